@@ -107,7 +107,7 @@ TAG_FORMS: dict[str, tuple[str, bool]] = {
 COUNT_POOL: list[Any] = [2, 1, 0, 5, "3", None]
 
 MSG_DECOR = ["{t}", "Hello {t}", "{t}, World!", "{t}\nsecond line", "é😀 {t}", "it's \"{t}\"", "100%% {t}",
-             "  {t}  ", "{t} \\ back"]
+             "  {t}  ", "{t} \\ back", "{t} & <b>co</b>"]
 TEXTS = ["\n", " ", "\n\n", "text ", "line one\nline two\n", "  \n\t", "\r\n", "Hello, World!\n", "", "a\n \n\nb"]
 SEPS = ["", " ", "\n", "\n", "\n\n", "\n  \n\n", " text ", "\ntext\n", "\r\n", "  \n  "]
 
@@ -308,7 +308,17 @@ class Builder:
         lead = "Translators:" if prefix else self.lay.pick(["", "translators:", "Translators", "NOTE:", "Translator:"])
         body = f"{lead} {cid} note" if lead else f"{cid} note"
         start = self.pos
-        if self.line_mode:
+        if self.line_mode and self.lay.rnd is not None and self.lay.chance(0.3):
+            # a block comment written as line statements of the liquid tag
+            kind = "liquid-block"
+            ind = self.lay_line.pick(["", " ", "  "])
+            self.emit(ind)
+            start = self.pos
+            self.emit("comment\n" + ind + "  " + body + "\n" + (ind + "  more about " + cid + "\n" if multiline else "")
+                      + ind + "endcomment")
+            end = self.pos
+            self.emit("\n" + self.lay_line.pick(["", "", "\n", ind + "assign zz = 1\n"]))
+        elif self.line_mode:
             kind = "line"
             multiline = False
             self.emit(self.lay_line.pick(["", " ", "  "]) if self.lay.rnd is not None else "  ")
@@ -1327,7 +1337,9 @@ class C15(Prop):
             res.excluded.append("empty-template")
             return res
 
-        env = Environment()
+        # a third of the cases render under auto-escape: literal messages are markup there, and the catalog must
+        # still be asked for the text as written (and as extracted), in both render modes
+        env = Environment(auto_escape=len(src) % 3 == 0)
         try:
             tmpl = env.from_string(src)
         except LiquidError as err:
@@ -1536,6 +1548,11 @@ class C15(Prop):
                     res.fail("comments", f"comment-misattached:after:{kind}",
                              f"comment {c['id']} at offset {c['start']} does not precede the markup at "
                              f"{site['markup_off']} of {m.message!r}; src={src!r}")
+                    continue
+                if site["markup_line"] - c["end_line"] > 1:
+                    res.fail("comments", f"comment-misattached:not-immediate:{kind}",
+                             f"comment {c['id']} ends on line {c['end_line']} but is attached to {m.message!r}, whose "
+                             f"markup only starts on line {site['markup_line']}; src={src!r}")
                     continue
                 nearer = [o for o in comments.values()
                           if o["prefix"] and c["start"] < o["start"] < site["markup_off"]]
